@@ -205,14 +205,24 @@ def _run_with_updates(spec, hist, j, k):
     return t, frozen
 
 
+def _is_strategy_child(spec, o):
+    return spec["shape"] in ("T2", "T3", "F2") and o[2] in ("s1", "s2", "s11", "sf")
+
+
 def idem_case(item):
-    spec, hist = item
+    spec, hist = item[0], item[1]
+    kmax = item[2] if len(item) > 2 else 3
     viols = []
     nruns = 0
     for j in range(len(hist) + 1):
         res = []
         status = None
-        for k in (1, 2, 3):
+        def uses_cached_weights(o):
+            return o[0] in ("allocself", "stransact") or (o[0] in ("batch", "seq") and any(uses_cached_weights(x) for x in o[1])) or (o[0] == "alloc" and _is_strategy_child(spec, o)) or (o[0] in ("reb", "rebbase", "close", "flatten") and spec["shape"] in ("T2", "T3", "F2"))
+
+        # zero updates is comparable only when nothing later reads weights cached by an update
+        ks = tuple(range(1, kmax + 1)) if any(uses_cached_weights(o) for o in hist[j:]) else tuple(range(0, kmax + 1))
+        for k in ks:
             try:
                 t, frozen = _run_with_updates(spec, hist, j, k)
                 if t is None:
@@ -230,14 +240,15 @@ def idem_case(item):
                     viols.append({"rule": "crash", "observed": rt.describe(e), "where": {"j": j, "k": k}})
                     status = "crash"
                 break
-        if status is not None or len(res) < 3:
+        if status is not None or len(res) < len(ks):
             if status in ("disabled",):
                 return ("disabled", viols, nruns)
             continue
         k1 = res[0]
         for (k, key, snap, hs, frozen, now) in res[1:]:
-            if key != k1[1] or not same(_plain(snap), _plain(k1[2])) or not same(_plain(hs), _plain(k1[3])):
-                viols.append({"rule": "update_not_idempotent", "expected": {"position": j, "updates": 1}, "observed": {"updates": k, "diff": _diff(k1[2], snap, k1[3], hs)}, "where": {"j": j, "k": k}})
+            # (with no update at all the raw state still carries the pending flag: observables only)
+            if (k1[0] != 0 and key != k1[1]) or not same(_plain(snap), _plain(k1[2])) or not same(_plain(hs), _plain(k1[3])):
+                viols.append({"rule": "update_not_idempotent", "expected": {"position": j, "updates": k1[0]}, "observed": {"updates": k, "diff": _diff(k1[2], snap, k1[3], hs)}, "where": {"j": j, "k": k}})
         # frozen past + series ends at now (on the k=1 run)
         k, key, snap, hs, frozen, now = k1
         for label, old in frozen.items():
@@ -335,7 +346,7 @@ def ops_for(shape):
 
 
 def run(ctx):
-    ctx.rule = "deviation placement: every op history up to the length bound x every position x {1,2,3 redundant updates} and x every (node, public property) as the first read after the prefix; a case is non-trivial if it is a distinct (history, placement) that executed"
+    ctx.rule = "deviation placement: every op history up to the length bound x every position x {0,1,2,3 redundant updates (quick: 0,1,2; zero only where no later op reads update-cached weights)} and x every (node, public property) as the first read after the prefix; a case is non-trivial if it is a distinct (history, placement) that executed"
     ctx.assumptions += [
         "histories in which the explicit root.update(now) itself raises a documented guard are ill-formed states and are skipped",
         "properties enumerated by introspection of the node classes; structural views (members, securities, universe, full_name, fixed_income) are C19/C04",
@@ -367,7 +378,7 @@ def run(ctx):
             if kind == "cy":
                 hists = [h for h in hists if len(h) < lidem or lidem <= 2]
             nr = 0
-            for (sp, h), (status, viols, n) in ctx.run(kind, MOD, "idem_case", [(spec, h) for h in hists], chunksize=8):
+            for (sp, h, _k), (status, viols, n) in ctx.run(kind, MOD, "idem_case", [(spec, h, 2 if ctx.tier == "quick" else 3) for h in hists], chunksize=8):
                 ctx.add(states=1 if status == "ok" else 0, transitions=n, traces_validated_against_impl=n, evaluations=n)
                 nr += n
                 if n:
